@@ -3,7 +3,7 @@
     M = ChunkModel.v (hchunks.c index arithmetic) and MCacheModel.v (mcache.c), both over gen/Gen_Chunk.v, which is
     regenerated from the C sources on every run. *)
 From Coq Require Import ZArith List Bool String Lia.
-Require Import H4.gen.Gen_Chunk H4.ChunkModel H4.MCacheModel H4.HChunkModel H4.ChunkProofs H4.MCacheProofs H4.HChunkProofs H4.ExtEltModel H4.ExtEltProofs H4.HAidModel H4.HAidProofs.
+Require Import H4.gen.Gen_Chunk H4.ChunkModel H4.MCacheModel H4.HChunkModel H4.ChunkProofs H4.MCacheProofs H4.HChunkProofs H4.ExtEltModel H4.ExtEltProofs H4.HAidModel H4.HAidProofs H4.ChunkTabModel H4.ChunkTabProofs.
 Import ListNotations.
 Local Open Scope Z_scope.
 
@@ -78,7 +78,8 @@ Theorem chunked_refines_stream : forall nt dd, geometry_ok nt dd ->
        Z.of_nat (List.length out) = r * nt /\
        forall i, 0 <= i < r * nt -> znth out i = stream_of nt dd (view (fst st) (snd st)) (e * nt + i)) /\
   (forall (v : Z -> page) (fe : list Z),
-     (forall cn off b, (nt | off) -> 0 <= b < nt -> znth (v cn) (off + b) = znth fe b) ->
+     (forall cn off b, 0 <= cn < npg dd -> 0 <= off -> off + nt <= csize nt dd -> (nt | off) -> 0 <= b < nt ->
+        znth (v cn) (off + b) = znth fe b) ->
      forall q, 0 <= q < total dd * nt -> stream_of nt dd v q = znth fe (q mod nt)).
 Proof. exact chunked_refines_stream_lemma2. Qed.
 Print Assumptions chunked_refines_stream.
@@ -168,6 +169,37 @@ Theorem access_ids_see_stream : forall nt dd, geometry_ok nt dd ->
         fst (fst (sp_run nt (stream_of nt dd s0) (repeat 0 naids) os)) q.
 Proof. exact aid_refines_stream_lemma. Qed.
 Print Assumptions access_ids_see_stream.
+
+(** chunk_table_implements_store.  The backing store the cache model works on is implemented by the chunk table
+    (TBBT of chunk records + HMCPchunkread/HMCPchunkwrite; tag tests, new tag and fill count regenerated from the
+    source): on every well-formed table page-in never fails and is the store's read -- the fill page for a chunk
+    without record or with a record never written (DFTAG_NULL) --, and page-out of a chunk whose record was created
+    first, as HMCPwrite/HMCwriteChunk do before asking the cache for the page (tbbtdfind/tbbtdins pinned in
+    [call_skeletons]), succeeds, keeps the table well-formed and is the store's write: exactly that chunk changes.
+    The fill page built by HDmemfill repeats the fill element, which is the hypothesis of the last clause of
+    [chunked_refines_stream]: unwritten chunks read as the fill value. *)
+Theorem chunk_table_implements_store : forall fillpg t n pg, tab_wf t ->
+  fs_in (tab_store fillpg t) n = ct_pagein fillpg t n /\
+  exists t', ct_pageout (ct_ensure t n) n pg = Some t' /\ tab_wf t' /\
+    forall k, fs_out (tab_store fillpg t) n pg = Some (fun j => if j =? n then pg else tab_store fillpg t j) /\
+              tab_store fillpg t' k = (fun j => if j =? n then pg else tab_store fillpg t j) k.
+Proof. exact chunk_table_implements_store_lemma. Qed.
+Print Assumptions chunk_table_implements_store.
+
+Theorem unwritten_chunks_are_fill : forall fillpg t n, tab_wf t ->
+  ct_pagein fillpg t n = Some (tab_store fillpg t n) /\
+  (find_rec t n = None -> tab_store fillpg t n = fillpg) /\
+  (forall r, find_rec t n = Some r -> cr_tag r = DFTAG_NULL -> tab_store fillpg t n = fillpg) /\
+  (forall r, find_rec t n = Some r -> cr_tag r = DFTAG_CHUNK -> tab_store fillpg t n = cr_page r).
+Proof. exact pagein_total. Qed.
+Print Assumptions unwritten_chunks_are_fill.
+
+Theorem fill_page_is_fill_value : forall chunk_size nt (fe : list Z) off b,
+  1 <= nt -> Z.of_nat (List.length fe) = nt -> 0 <= chunk_size ->
+  0 <= off -> off + nt <= chunk_size * nt -> (nt | off) -> 0 <= b < nt ->
+  nth (Z.to_nat (off + b)) (fill_page chunk_size nt fe) 0 = nth (Z.to_nat b) fe 0.
+Proof. exact fill_page_repeats. Qed.
+Print Assumptions fill_page_is_fill_value.
 
 (** fill_lookup_uniform.  The chunked layout decides "this image has a user-defined fill value" exactly as the
     contiguous read and write paths do (regenerated condition texts): index-or-FAIL compared with FAIL. *)
@@ -263,6 +295,21 @@ Example stale_shared_indices_are_wrong :
   (match aop_run 2 dd false (mkae (mcache_open 1 (npg dd), s0) ([], []) [0; 0]) os with
    | Some (_, outs) => nth 3 outs [] <> [3;4;5;6] | None => True end).
 Proof. cbv zeta. split; vm_compute; [reflexivity | congruence]. Qed.
+
+Example chunk_table_example :
+  let fe := [7; 8] in let fillpg := fill_page 6 2 fe in
+  let t0 : ctab := [] in
+  tab_wf t0 /\ fillpg = [7;8;7;8;7;8;7;8;7;8;7;8] /\ ct_pagein fillpg t0 4 = Some fillpg /\
+  (match ct_pageout (ct_ensure t0 4) 4 [1;2;3;4;5;6;7;8;9;10;11;12] with
+   | Some t1 => tab_wf t1 /\ ct_pagein fillpg t1 4 = Some [1;2;3;4;5;6;7;8;9;10;11;12] /\ ct_pagein fillpg t1 3 = Some fillpg /\
+                ct_pagein fillpg (ct_ensure t1 3) 3 = Some fillpg
+   | None => False end) /\
+  ct_pageout t0 4 [1] = None.
+Proof.
+  cbv zeta. split; [constructor|]. split; [vm_compute; reflexivity|]. split; [vm_compute; reflexivity|]. split.
+  - vm_compute. split; [constructor; [right; reflexivity|constructor]|]. repeat split; reflexivity.
+  - reflexivity.
+Qed.
 
 Example stream_example :
   chunk_read_elem 1 [mk_dim 5 2; mk_dim 7 3]
